@@ -435,6 +435,16 @@ def case_step(B, cfg):
         fullv = [state.get(k, x[k]) for k in range(n)]
         A.assume(fullv)
         A.evaluate(obj, [x[k] for k in free], free)
+    original = None
+    if cfg.get('via_copy') and hasattr(obj, 'copy'):
+        # the call goes to a copy: the original keeps its pre-state (names,
+        # values, results), whatever is done to -- or evaluated on -- the copy
+        original, pre_state = obj, dict(state)
+        pre_free = [k for k in range(n) if k not in pre_state]
+        pre_full = [pre_state.get(k, x[k]) for k in range(n)]
+        A.assume(pre_full)
+        pre_got = A.evaluate(original, [x[k] for k in pre_free], pre_free)
+        obj = original.copy()
     d2 = {}
     c2 = {}
     for k, c in enumerate(call):
@@ -475,6 +485,16 @@ def case_step(B, cfg):
     got3 = A.evaluate(obj, [x[k] for k in free], free)
     _carried(B, got3, want)
     _compare(B, 'repeated evaluation', got3, got)
+    if original is not None:
+        B.fact('original of the copy: names unchanged',
+               list(A.names(original)) == [full_names[k] for k in pre_free],
+               repr(A.names(original)))
+        again = A.evaluate(original, [x[k] for k in pre_free], pre_free)
+        for d_ in (pre_got, again):
+            for k_ in [k_ for k_ in d_ if k_.startswith('carried ')]:
+                d_.pop(k_)
+        _compare(B, 'original unaffected by calls on / evaluations of its '
+                 'copy', again, pre_got)
 
 
 def _carried(B, got, want):
@@ -561,6 +581,8 @@ def jobs(tier):
                        evaluate_between=(j % 2 == 1))
             if spec[0] in ('mech', 'll'):
                 cfg['sens_pre'] = (j // 2) % 2 == 0
+            if spec[0] == 'mech' and p and j % 3 == 0:
+                cfg['via_copy'] = True
             out.append(('step', 'case_step', cfg, {'diffcheck': j % 5 == 0}))
     return out
 
